@@ -4,7 +4,10 @@ use crate::util::linear_scan::RegionIterator;
 use crate::util::metadata::side_metadata::SideMetadataSpec;
 use crate::util::Address;
 use crate::vm::VMBinding;
+#[cfg(not(mmtk_verif))]
 use spin::Mutex;
+#[cfg(mmtk_verif)]
+use crate::util::verif::sync::spin_shim::Mutex;
 use std::ops::Range;
 
 /// Data structure to reference a MMTk 4 MB chunk.
